@@ -11,7 +11,7 @@ from .npu import isa
 
 
 class Stream:
-    __slots__ = ("npu", "config", "idw", "words", "ops", "problems", "side", "acc")
+    __slots__ = ("npu", "config", "idw", "words", "ops", "problems", "side", "acc", "cmds")
 
 
 def decode_streams(an, rec, acc):
@@ -25,12 +25,19 @@ def decode_streams(an, rec, acc):
         s.problems = p1 + p2
         s.acc = acc
         s.side = None
+        s.cmds = None
         out.append(s)
     # match side-band streams to file streams by their words (order in the file may differ from generation order)
     for s in out:
         for sd in side:
             if sd["words"] == s.words:
                 s.side = sd
+                break
+        for sg in (rec["sideband"].subgraphs if rec.get("sideband") else []):
+            if sg["words"] == s.words:
+                cm = [c for c in sg["cmds"] if c["kind"] != "nop"]
+                if len(cm) == len(s.ops):
+                    s.cmds = cm
                 break
     return out
 
@@ -56,6 +63,10 @@ def geometry_mismatch(s, i):
     op, so = s.ops[i], s.side["npu_ops"][i]
     if op.kind == "dma":
         return None
+    # only un-striped operators belong to this family (their IFM box is the whole view that a graph rewrite re-derived);
+    # a wrong box or padding of ONE stripe of a striped operator is a different defect and must stay visible
+    if s.cmds is None or s.cmds[i]["kind"] != "stripe" or not (s.cmds[i]["first"] and s.cmds[i]["last"]):
+        return None
     h, w = D.ifm_extent(op)
     sh, sw = int(so.ifm.shape.height), int(so.ifm.shape.width)
     if h > sh or w > sw:
@@ -68,6 +79,10 @@ _need_side = True
 
 
 def _child(case):
+    if case.get("forced"):
+        from . import forced
+
+        forced.install(case["forced"])
     mb = sweep.model_bytes(case, case.get("seed", 0)) if "h" in case else case["model_bytes"]
     rec = C.compile_main(mb, case["cfg"], want_sideband=_need_side)
     if rec["status"] != 0 or rec["out"] is None:
@@ -104,6 +119,13 @@ def replay_case(oracle, case):
     return ["%s: %s" % (k, w) for k, w in r["viol"]]
 
 
+def _name(case):
+    n = sweep.case_name(case) if "h" in case else str(case.get("name"))
+    if case.get("forced"):
+        n += " forced-stripe=%d" % case["forced"]
+    return n
+
+
 def run(ctx, oracle, level, rule, assumptions, plan=None, nontrivial_stat=None, extra_cases=(), key_with_case=True, model_checking=False, key_fn=None, extra_cov=None):
     core.bind_repo()
     plan = plan or sweep.default_plan(ctx.tier)
@@ -138,9 +160,9 @@ def run(ctx, oracle, level, rule, assumptions, plan=None, nontrivial_stat=None, 
         if nontrivial_stat and r["stats"].get(nontrivial_stat):
             nontrivial += 1
         if sample is None and r["stats"].get("hwops", 0) >= 2:
-            sample = dict(case=sweep.case_name(case) if "h" in case else str(case.get("name")), stats=r["stats"])
+            sample = dict(case=_name(case), stats=r["stats"])
         for key, what in r["viol"]:
-            name = sweep.case_name(case) if "h" in case else str(case.get("name"))
+            name = _name(case)
             full = key_fn(key, name) if key_fn else ("%s|%s" % (key, name) if key_with_case else key)
             ctx.violation(full, "%s  [case %s]" % (what, name), {k: v for k, v in case.items() if k != "model_bytes"})
     if compiled == 0:
